@@ -812,7 +812,8 @@ def boundary_s_cases(rng, keys):
         pub = keys.sec(ki, True)
         for tail in (b"\xac\x91", b"\xac", b"\xac\x91\x91\x91"):
             script = push(pub) + tail
-            for sv in (C.n // 2 - 1, C.n // 2, C.n // 2 + 1, C.n // 2 + 2, (C.n + C.p) // 4, C.p // 2, C.p // 2 + 1, C.n - 1, 1):
+            for sv in (C.n // 2 - 1, C.n // 2, C.n // 2 + 1, C.n // 2 + 2, (C.n + C.p) // 4, C.p // 2, C.p // 2 + 1, C.n - 1, 1,
+                       C.n, C.n + 1, C.p, (1 << 256) - 1, 0):
                 for flags in (RS.LOW_S, RS.LOW_S | RS.P2SH | RS.WITNESS, RS.DERSIG, 0, RS.LOW_S | RS.STRICTENC, ALL_FLAGS & ~RS.NULLFAIL):
                     for wrapper in ("bare", "p2wsh"):
                         tx = mk_tx(rng, b"", [], 1000, 1, 0, 0xffffffff, 0, 1, 0)
